@@ -282,12 +282,100 @@ class Inliner:
                     nb['term'] = dict({'k': 'goto', 'target': cont}, **src)
             new_blocks.append(nb)
         caller['blocks'].extend(new_blocks)
+        if kind != 'poll' and cont is not None and not t['dest'].get('p'):
+            self.thread_returns(caller, boff, len(new_blocks), loff, t['dest']['l'], cont)
         blk['stmts'].extend(pre)
         blk['term'] = dict({'k': 'goto', 'target': boff, 'inl_call': callee['path']}, **{k: t[k] for k in ('file', 'ln') if k in t})
         top = top_path(callee['path'])
         self.spliced[top] = self.spliced.get(top, 0) + 1
         self.log.append('%s <- %s (%s, %d blocks)' % (caller['path'], callee['path'], kind, len(callee['blocks'])))
         return range(boff, boff + len(new_blocks))
+
+    def thread_returns(self, caller, boff, n, ret_slot, dest, cont):
+        """Jump threading for predicate helpers: when a spliced helper returns a constant (`true` / `false`, a fieldless or
+        known enum variant) on a branch and the caller immediately branches on the returned value, the branch of the
+        helper continues directly at the caller's corresponding target. Without this the caller's decision would hang on
+        a materialised bool and no edge of the original condition would dominate the guarded code any more."""
+        cb = caller['blocks'][cont]
+        tt = cb['term']
+        if tt['k'] != 'switch':
+            return
+        dl = _op_local(tt['discr'])
+        if dl is None:
+            return
+        via_discr = False
+        if dl != dest:
+            # `d = discriminant(dest); switch(d)`
+            ok = False
+            for st in cb['stmts']:
+                if st['k'] == 'assign' and st['lhs']['l'] == dl and not st['lhs'].get('p') and st['rv']['k'] == 'discr' and st['rv']['place']['l'] == dest and not st['rv']['place'].get('p'):
+                    ok = True
+            if not ok:
+                return
+            via_discr = True
+        if any(st['k'] == 'assign' and st['lhs']['l'] == dest for st in cb['stmts']):
+            return
+        targets = dict((v, b) for v, b in tt['targets'])
+        for ri in range(boff, boff + n):
+            rb = caller['blocks'][ri]
+            if not (rb['term']['k'] == 'goto' and rb['term']['target'] == cont and rb['stmts'] and rb['stmts'][-1]['k'] == 'assign' and rb['stmts'][-1]['lhs']['l'] == dest):
+                continue
+            # walk back from each predecessor of the return block along blocks that belong to one path only (one predecessor,
+            # one successor) to the assignment of the return slot; if it is a constant the path continues at the matching target
+            region = range(boff, boff + n)
+            def succs_of(b_):
+                t_ = b_['term']
+                if t_['k'] in ('goto', 'drop') and isinstance(t_.get('target'), int):
+                    return [t_['target']]
+                return None
+            preds = {}
+            for pi in region:
+                ss = succs_of(caller['blocks'][pi])
+                tk = caller['blocks'][pi]['term']
+                allsucc = ss if ss is not None else ([b2 for _, b2 in tk.get('targets', [])] + [x for x in (tk.get('otherwise'), tk.get('target'), tk.get('resume')) if isinstance(x, int)])
+                for x in allsucc:
+                    preds.setdefault(x, []).append(pi)
+            def const_of(stmts):
+                val = None
+                found = False
+                for st in stmts:
+                    if st['k'] == 'assign' and st['lhs']['l'] == ret_slot and not st['lhs'].get('p'):
+                        rv = st['rv']
+                        found = True
+                        val = None
+                        if rv['k'] == 'use' and rv['op'].get('c') is not None and isinstance(rv['op']['c'].get('v'), int) and not via_discr:
+                            val = rv['op']['c']['v']
+                        elif rv['k'] == 'agg' and rv.get('agg') == 'adt' and via_discr and isinstance(rv.get('vi'), int):
+                            val = rv['vi']
+                return found, val
+            # the return block itself may hold the constant
+            found, val = const_of(rb['stmts'][:-1])
+            if found:
+                if val is not None:
+                    rb['stmts'] = rb['stmts'] + copy.deepcopy(cb['stmts'])
+                    rb['term'] = {'k': 'goto', 'target': targets.get(val, tt['otherwise']), 'threaded': True}
+                continue
+            for last in list(preds.get(ri, [])):
+                if succs_of(caller['blocks'][last]) != [ri]:
+                    continue
+                cur = last
+                val = None
+                for _ in range(12):
+                    found, val = const_of(caller['blocks'][cur]['stmts'])
+                    if found:
+                        break
+                    ps_ = preds.get(cur, [])
+                    if len(ps_) != 1 or succs_of(caller['blocks'][ps_[0]]) != [cur]:
+                        val = None
+                        break
+                    cur = ps_[0]
+                if val is None:
+                    continue
+                tgt = targets.get(val, tt['otherwise'])
+                nb = {'cleanup': False, 'stmts': copy.deepcopy(rb['stmts']) + copy.deepcopy(cb['stmts']), 'term': {'k': 'goto', 'target': tgt, 'threaded': True}, 'inl': rb.get('inl')}
+                caller['blocks'].append(nb)
+                lb = caller['blocks'][last]
+                lb['term'] = dict(lb['term'], target=len(caller['blocks']) - 1)
 
     # ------------------------------------------------------------------ driver per caller
     def process(self, caller):
